@@ -11,7 +11,8 @@ Protocol (`c10 kind=<k> …`; every value is a decimal integer or a comma separa
   kind=filter  shape=<ints> fshape=<ints> mode=<0..5, Mode.ofCode>
       -> `idx=<list> ok=<0|1> n=<len> rows=<list> nrows=<int>`; `rows` = for every array position (scan order)
          the row of the offsets table the pointer arithmetic of `iterate_both` has reached (`scanState`;
-         proved equal to `tableRow`), `nrows` = `offsets_size`; `idx` lists, for every array position p (C scan order, outer)
+         proved equal to `tableRow`), `nrows` = `offsets_size`, `fill` = for every table row the C-order flat index
+         of the `position[]` at which `init_filter_offsets` computed it (`fillPos`); `idx` lists, for every array position p (C scan order, outer)
          and every filter coordinate k (C scan order, inner), the C-order flat index of the element
          the filter iterator reads (`ravelZ`, signed), or -1 for the border flag. `ok=1` iff every
          non-flag coordinate list is inside `shape`.
@@ -211,6 +212,23 @@ def scanState (ashape fshape : List Nat) : Nat → Option (List Int × Int)
       | some p' => some (p', row + (iterateBothDelta ashape fshape p).1)
       | none => none
     | none => none
+
+/-- the odometer "move to the next array region" of `init_filter_offsets` over all axes
+    (lines 129-146): from the last axis backwards `position[ii] = next; if (position[ii] < ashape[ii])
+    break; else position[ii] = 0;`. `none` = every axis wrapped. -/
+def nextRegionPositions : List Nat → List Nat → List Int → Option (List Int)
+  | a :: as, f :: fs, pos :: rest =>
+    match nextRegionPositions as fs rest with
+    | some rest' => some (pos :: rest')
+    | none =>
+      let q := nextRegionPos a f pos
+      if q < (a : Int) then some (q :: rest.map (fun _ => 0)) else none
+  | _, _, _ => none
+
+/-- `position[]` while row `ll` of the offsets table is being filled -/
+def fillPos (ashape fshape : List Nat) : Nat → Option (List Int)
+  | 0 => some (ashape.map fun _ => 0)
+  | n + 1 => (fillPos ashape fshape n).bind (nextRegionPositions ashape fshape)
 
 /-! ## B2 — `fast_binary_dilate_erode_2d` (`_morph.cpp`) -/
 
@@ -440,7 +458,11 @@ def handle (a : Args) : String :=
         match scanState shape fshape n with
         | some (_, row) => row
         | none => -1
-      s!"idx={showInts idx} ok={b2s (filterOk m shape fshape)} n={idx.length} rows={showInts rows} nrows={shapeSize (minShape shape fshape)}"
+      let fill := (List.range (shapeSize (minShape shape fshape))).map fun n =>
+        match fillPos shape fshape n with
+        | some pos => ravelZ shape pos
+        | none => -1
+      s!"fill={showInts fill} idx={showInts idx} ok={b2s (filterOk m shape fshape)} n={idx.length} rows={showInts rows} nrows={shapeSize (minShape shape fshape)}"
   | "region" =>
     let a' := a.nat "a"; let f := a.nat "f"
     let idx := (List.range a').map (regionIndex a' f)
